@@ -294,34 +294,43 @@ def coqchk(pid):
     return ok, axioms, out
 
 
-SHAPE_FILES = ["cache.go", "store.go", "ttl.go", "policy.go", "ring.go"]
-SHAPE_FUNCS = re.compile(r"^(Cache\.(Clear|Close|Del|Get|GetTTL|IterValues|SetWithTTL|Wait|processItems|UpdateMaxCost|RemainingCost)|"
+SHAPES = {
+    # the lock-grain cache machine (Cache/Machine.v)
+    "cache": (["cache.go", "store.go", "ttl.go", "policy.go", "ring.go"],
+              re.compile(r"^(Cache\.(Clear|Close|Del|Get|GetTTL|IterValues|SetWithTTL|Wait|processItems|UpdateMaxCost|RemainingCost)|"
                          r"defaultPolicy\.(Add|Cap|Clear|Cost|Del|Has|Update|Push|processItems|Close)|"
                          r"expirationMap\.\w+|lockedMap\.\w+|shardedMap\.\w+|Metrics\.Clear|ringStripe\.Push|ringBuffer\.Push|"
-                         r"sampledLFU\.\w+|tinyLFU\.\w+|NewCache|newDefaultPolicy):")
+                         r"sampledLFU\.\w+|tinyLFU\.\w+|NewCache|newDefaultPolicy):"),
+              "lockshape.expected"),
+    # the allocator's interleaving machine (Alloc/Alloc.v): fetch-and-add fast path, growth under the mutex
+    "alloc": (["z/allocator.go"],
+              re.compile(r"^Allocator\.(Allocate|AllocateAligned|Copy|addBufferAt|Reset|TrimTo|Release|MaxAlloc|Size|Allocated):"),
+              "lockshape_alloc.expected"),
+}
 
 
-def lockshape():
-    """syntactic skeleton (mutex / channel operations, select, go, calls of machine steps, in source order) of the
-    functions the cache machine models, extracted from /repo's current tree by tools/lockshape; -> (ok, lines, log)"""
+def lockshape(which="cache"):
+    """syntactic skeleton (mutex / atomic operations in source order, channel operations, calls of machine steps) of the
+    functions a machine models, extracted from /repo's current tree by tools/lockshape; -> (ok, lines, log)"""
+    files, rx, _ = SHAPES[which]
     exe = os.path.join(BUILD, "lockshape")
     src = os.path.join(ROOT, "tools", "lockshape")
     if (not os.path.exists(exe)) or os.path.getmtime(exe) < os.path.getmtime(os.path.join(src, "main.go")):
         rc, out = sh(["go", "build", "-o", exe, "."], cwd=src, env=goenv(), timeout=300)
         if rc != 0:
             return False, [], "lockshape does not build: " + out[-800:]
-    rc, out = sh([exe] + SHAPE_FILES, cwd=REPO, timeout=60)
+    rc, out = sh([exe] + files, cwd=REPO, timeout=60)
     if rc != 0:
         return False, [], out[-800:]
-    return True, [l for l in out.splitlines() if SHAPE_FUNCS.match(l)], ""
+    return True, [l for l in out.splitlines() if rx.match(l)], ""
 
 
-def lockshape_diff():
-    """compare with the committed expectation lib/lockshape.expected; -> list of differences (empty = same)"""
-    ok, lines, log = lockshape()
+def lockshape_diff(which="cache"):
+    """compare with the committed expectation; -> list of differences (empty = same)"""
+    ok, lines, log = lockshape(which)
     if not ok:
         return ["cannot extract the synchronisation skeleton: " + log]
-    exp = [l.rstrip("\n") for l in open(os.path.join(ROOT, "lib", "lockshape.expected")) if l.strip() and not l.startswith("#")]
+    exp = [l.rstrip("\n") for l in open(os.path.join(ROOT, "lib", SHAPES[which][2])) if l.strip() and not l.startswith("#")]
     de = {l.split(":", 1)[0]: l for l in exp}
     dg = {l.split(":", 1)[0]: l for l in lines}
     diffs = []
